@@ -697,20 +697,29 @@ func persistBasicSegment(
 		ioCh <- ioResult{kind: "buf", want: len(seg.buf), got: bufWritten, err: err}
 	}()
 
+	// Wait for both writes, also when one of them failed: the other
+	// one must not be left in flight, or it could land on top of what
+	// a retry writes at the same file position.
 	resMap := map[string]ioResult{}
+	var firstErr error
 	for len(resMap) < 2 {
 		res := <-ioCh
-		if res.err != nil {
-			return rv, res.err
-		}
-		if res.want != res.got {
-			return rv, fmt.Errorf("store: persistSegment error writing,"+
-				" res: %+v, err: %v", res, res.err)
+		if firstErr == nil {
+			if res.err != nil {
+				firstErr = res.err
+			} else if res.want != res.got {
+				firstErr = fmt.Errorf("store: persistSegment error writing,"+
+					" res: %+v, err: %v", res, res.err)
+			}
 		}
 		resMap[res.kind] = res
 	}
 
 	close(ioCh)
+
+	if firstErr != nil {
+		return rv, firstErr
+	}
 
 	return SegmentLoc{
 		Kind:       seg.Kind(),
